@@ -44,6 +44,9 @@ def gen_cases(tier, seed):
     for k in range(hostile.zoo_size() * (1 if tier == "quick" else 6)):
         # the operator zoo: one CPU-resident float32 instance of 47 further operators with every option set
         cases.append({"family": "hostile", "nseed": int(seed * 1000003 + 800000 + k), "cfg": cfggen.rand_cfg(rng), "hkind": "zoo", "hpick": k, "cli": k % 4 == 0})
+    for k in range(36 if tier == "quick" else 600):
+        # appended later: rank-changing memory-only operators inside accelerated flows, EXP / SQUARED_DIFFERENCE lowerings
+        cases.append({"family": ["shape-ops", "approx-tail2", "shape-ops"][k % 3], "nseed": int(seed * 1000003 + 900000 + k), "cfg": cfggen.rand_cfg(rng), "cli": k % 6 == 0})
     return cases
 
 
